@@ -543,10 +543,13 @@ def build_task(L, cfg, events):
     for k, v in (cfg.get('hyper_post') or {}).items():
         setattr(opt, k, v)
     box_ub = [1.0] * cfg['n_vars'] if cfg['space'] == 'hyper' else cfg['ub']
-    if cfg['objective'] == 'weighted':
+    if cfg['objective'] in ('weighted', 'weightedplain'):
         f1 = make_objective('sphere', np, box_ub, cfg['rettype'])
         f2 = make_objective('positive', np, box_ub, cfg['rettype'])
         raw = [f1, f2]
+        if cfg['objective'] == 'weightedplain':
+            # the same values through a plain Function (the control for what is specific to WeightedFunction)
+            raw = [lambda x, _f1=f1, _f2=f2: 0.75 * _f1(x) + 0.5 * _f2(x)]
     else:
         raw = [make_objective(cfg['objective'], np, box_ub, cfg['rettype'])]
     comp_calls = []
